@@ -206,6 +206,154 @@ impl DepOrder for NodeOrder {
     }
 }
 
+// ---------------------------------------------------------------------------------------------
+// Large structured graphs (sizes around and beyond 64 / 128 / 256 nodes)
+// ---------------------------------------------------------------------------------------------
+
+/// adjacency lists: i depends on every j in adj[i]
+#[derive(Clone, Debug)]
+pub struct BigGraph {
+    pub adj: Vec<Vec<usize>>,
+}
+pub const BIG_FAMILIES: [&str; 8] = ["chain", "all-on-one", "one-on-all", "binary-tree", "ladder", "chain-closed-into-a-ring-half-way", "all-on-one-and-a-two-cycle", "layered-complete"];
+pub const BIG_SIZES: [usize; 4] = [65, 66, 130, 300];
+pub const BIG_LISTINGS: [&str; 6] = ["ascending", "descending", "rotated", "evens-then-odds", "first-only", "last-only"];
+impl BigGraph {
+    pub fn family(f: usize, n: usize) -> BigGraph {
+        let mut adj: Vec<Vec<usize>> = vec![vec![]; n];
+        match f {
+            0 => (0..n - 1).for_each(|i| adj[i].push(i + 1)),
+            1 => (1..n).for_each(|i| adj[i].push(0)),
+            2 => (1..n).for_each(|i| adj[0].push(i)),
+            3 => (0..n).for_each(|i| {
+                for c in [2 * i + 1, 2 * i + 2] {
+                    if c < n {
+                        adj[i].push(c)
+                    }
+                }
+            }),
+            4 => (0..n).for_each(|i| {
+                for c in [i + 1, i + 2] {
+                    if c < n {
+                        adj[i].push(c)
+                    }
+                }
+            }),
+            5 => {
+                (0..n - 1).for_each(|i| adj[i].push(i + 1));
+                adj[n - 1].push(n / 2);
+            }
+            6 => {
+                (1..n).for_each(|i| adj[i].push(0));
+                adj[n - 2].push(n - 1);
+                adj[n - 1].push(n - 2);
+            }
+            _ => {
+                // layers of 10: every node depends on every node of the next layer
+                (0..n).for_each(|i| {
+                    let next = (i / 10 + 1) * 10;
+                    for c in next..(next + 10).min(n) {
+                        adj[i].push(c);
+                    }
+                })
+            }
+        }
+        BigGraph { adj }
+    }
+    pub fn listing(l: usize, n: usize) -> Vec<usize> {
+        match l {
+            0 => (0..n).collect(),
+            1 => (0..n).rev().collect(),
+            2 => (0..n).map(|i| (i + n / 3) % n).collect(),
+            3 => (0..n).step_by(2).chain((1..n).step_by(2)).collect(),
+            4 => vec![0],
+            _ => vec![n - 1],
+        }
+    }
+    pub fn reachable(&self, roots: &[usize]) -> Vec<bool> {
+        let mut seen = vec![false; self.adj.len()];
+        let mut stack: Vec<usize> = roots.to_vec();
+        while let Some(i) = stack.pop() {
+            if !seen[i] {
+                seen[i] = true;
+                stack.extend(self.adj[i].iter().copied());
+            }
+        }
+        seen
+    }
+    /// Kahn elimination restricted to `set`: true if something remains
+    pub fn cyclic_within(&self, set: &[bool]) -> bool {
+        let n = self.adj.len();
+        let mut outdeg: Vec<usize> = (0..n).map(|i| if set[i] { self.adj[i].iter().filter(|j| set[**j]).count() } else { 0 }).collect();
+        let mut users: Vec<Vec<usize>> = vec![vec![]; n];
+        for i in 0..n {
+            if set[i] {
+                for &j in &self.adj[i] {
+                    if set[j] {
+                        users[j].push(i);
+                    }
+                }
+            }
+        }
+        let mut ready: Vec<usize> = (0..n).filter(|i| set[*i] && outdeg[*i] == 0).collect();
+        let mut done = 0usize;
+        while let Some(j) = ready.pop() {
+            done += 1;
+            for &i in &users[j] {
+                outdeg[i] -= 1;
+                if outdeg[i] == 0 {
+                    ready.push(i);
+                }
+            }
+        }
+        done != set.iter().filter(|b| **b).count()
+    }
+    pub fn validate(&self, order: &[usize], set: &[bool]) -> Result<(), String> {
+        let n = self.adj.len();
+        let mut pos = vec![usize::MAX; n];
+        for (k, &i) in order.iter().enumerate() {
+            if i >= n || !set[i] {
+                return Err(format!("item {i} is not reachable from the listing"));
+            }
+            if pos[i] != usize::MAX {
+                return Err(format!("item {i} listed twice"));
+            }
+            pos[i] = k;
+        }
+        for i in 0..n {
+            if set[i] && pos[i] == usize::MAX {
+                return Err(format!("reachable item {i} is missing"));
+            }
+            if set[i] {
+                for &j in &self.adj[i] {
+                    if pos[j] > pos[i] {
+                        return Err(format!("item {i} listed before its dependency {j}"));
+                    }
+                }
+            }
+        }
+        Ok(())
+    }
+}
+thread_local! {
+    static BIG: RefCell<Vec<Vec<usize>>> = RefCell::new(vec![]);
+}
+struct BigOrder;
+impl DepOrder for BigOrder {
+    type Item = u16;
+    type Error = ();
+    fn process(item: &u16, orderer: &mut DepOrderer<Self>) -> Result<(), ()> {
+        let deps: Vec<usize> = BIG.with(|g| g.borrow()[*item as usize].clone());
+        for j in deps {
+            orderer.push(&(j as u16))?;
+        }
+        Ok(())
+    }
+    fn fail() -> Result<(), ()> {
+        Err(())
+    }
+}
+
 fn gkey(part: &str, n: usize, loops: bool, bits: u64, order: &[usize]) -> String {
     let o: Vec<String> = order.iter().map(|x| x.to_string()).collect();
     format!("{part}:{n}:{}:{bits}:{}", loops as u8, o.join(""))
@@ -615,6 +763,135 @@ impl C17 {
         }
     }
 
+    fn judge_big(&self, key: &str, who: &str, g: &BigGraph, roots: &[usize], res: Result<Result<Vec<usize>, String>, PanicInfo>, cx: &mut Cx) {
+        cx.stats.evaluations += 1;
+        let set = g.reachable(roots);
+        let cyclic = g.cyclic_within(&set);
+        match res {
+            Err(p) => cx.fail(key, &format!("{who}-panic"), None, || format!("{who}: {} on {key}", p.short()), || Value::Null),
+            Ok(Err(e)) => {
+                if cyclic {
+                    cx.outcome("cycle-error");
+                } else {
+                    cx.fail(key, &format!("{who}-spurious-error"), None, || format!("{who}: the acyclic graph {key} is rejected: {}", truncate(&e, 160)), || Value::Null);
+                }
+            }
+            Ok(Ok(order)) => {
+                if cyclic {
+                    cx.fail(key, &format!("{who}-cycle-accepted"), None, || format!("{who}: {key} has a reachable cycle but an ordering of {} items was produced", order.len()), || Value::Null);
+                } else if let Err(why) = g.validate(&order, &set) {
+                    cx.fail(key, &format!("{who}-bad-order"), None, || format!("{who}: {key}: ordering of {} items: {why}", order.len()), || Value::Null);
+                } else {
+                    cx.outcome("ordered");
+                }
+            }
+        }
+    }
+    /// key: big:<family>:<n>:<listing>
+    fn run_big(&self, f: usize, n: usize, l: usize, cx: &mut Cx) {
+        let key = format!("big:{f}:{n}:{l}");
+        if !cx.enter(&key) {
+            return;
+        }
+        let g = BigGraph::family(f, n);
+        let listing = BigGraph::listing(l, n);
+        cx.stats.executions += 4;
+        cx.stats.transitions += listing.len() as u64;
+        // generic helper
+        BIG.with(|x| *x.borrow_mut() = g.adj.clone());
+        let items: Vec<u16> = listing.iter().map(|r| *r as u16).collect();
+        let res = guard(|| BigOrder::order(&items).map(|v| v.into_iter().map(|x| x as usize).collect::<Vec<usize>>()).map_err(|_| "error".to_string()));
+        self.judge_big(&key, "generic-large", &g, &listing, res, cx);
+        // raw cells
+        {
+            let ptrs: Vec<Ptr<raw::Cell>> = (0..n).map(|i| Ptr::new(raw::Cell::from(raw::Layout { name: format!("c{i}"), insts: vec![], elems: vec![], annotations: vec![] }))).collect();
+            for i in 0..n {
+                for &j in &g.adj[i] {
+                    let inst = raw::Instance { inst_name: format!("i{i}_{j}"), cell: ptrs[j].clone(), loc: raw::Point::new(0, 0), reflect_vert: false, angle: None };
+                    ptrs[i].write().unwrap().layout.as_mut().unwrap().insts.push(inst);
+                }
+            }
+            let mut lib = raw::Library::new("lib", raw::Units::Nano);
+            for &i in &listing {
+                lib.cells.push(ptrs[i].clone());
+            }
+            let idx = |name: &str| name[1..].parse::<usize>().unwrap_or(usize::MAX);
+            let res = guard(|| raw::DepOrder::order(&lib).map(|v| v.iter().map(|p| idx(&p.read().unwrap().name)).collect::<Vec<usize>>()).map_err(|e| format!("{e:?}")));
+            self.judge_big(&key, "raw-DepOrder-large", &g, &listing, res, cx);
+            for p in &ptrs {
+                p.write().unwrap().layout = None;
+            }
+        }
+        // tetris cells
+        {
+            use tetris::{cell::Cell, instance::Instance, layout::Layout, outline::Outline};
+            let tp: Vec<Ptr<Cell>> = (0..n).map(|i| Ptr::new(Cell::from(Layout::new(format!("t{i}"), 0, Outline::rect(10, 10).unwrap())))).collect();
+            for i in 0..n {
+                for &j in &g.adj[i] {
+                    let inst = Instance { inst_name: format!("i{i}_{j}"), cell: tp[j].clone(), loc: (0, 0).into(), reflect_horiz: false, reflect_vert: false };
+                    tp[i].write().unwrap().layout.as_mut().unwrap().instances.add(inst);
+                }
+            }
+            let mut lib = tetris::library::Library::new("tlib");
+            for &i in &listing {
+                lib.cells.push(tp[i].clone());
+            }
+            let idx = |name: &str| name[1..].parse::<usize>().unwrap_or(usize::MAX);
+            let res = guard(|| lib.dep_order().map(|v| v.iter().map(|p| idx(&p.read().unwrap().name)).collect::<Vec<usize>>()).map_err(|e| format!("{e:?}")));
+            self.judge_big(&key, "tetris-dep_order-large", &g, &listing, res, cx);
+            let res = guard(|| tetris::conv::proto::ProtoExporter::export(&lib).map(|p| p.cells.iter().map(|c| idx(&c.name)).collect::<Vec<usize>>()).map_err(|e| format!("{e:?}")));
+            self.judge_big(&key, "tetris-proto-export-large", &g, &listing, res, cx);
+            for p in &tp {
+                p.write().unwrap().layout = None;
+            }
+        }
+        // relative placements: functional graphs only (every instance relative to at most one other)
+        if g.adj.iter().all(|a| a.len() <= 1) {
+            use tetris::{instance::Instance, layout::Layout, outline::Outline, placement::*};
+            cx.stats.executions += 1;
+            let mut lib = tetris::library::Library::new("plib");
+            let unit = lib.cells.add(Layout::new("unit", 0, Outline::rect(1, 1).unwrap()));
+            let mut parent = Layout::new("parent", 0, Outline::rect(1000, 1000).unwrap());
+            let listed: Vec<bool> = (0..n).map(|i| listing.contains(&i)).collect();
+            let mut iptrs: Vec<Option<Ptr<Instance>>> = vec![None; n];
+            for &i in listing.iter().chain((0..n).filter(|i| !listed[*i]).collect::<Vec<usize>>().iter()) {
+                let inst = Instance { inst_name: format!("i{i}"), cell: unit.clone(), loc: (i as isize, 5).into(), reflect_horiz: false, reflect_vert: false };
+                iptrs[i] = Some(if listed[i] { parent.instances.add(inst) } else { Ptr::new(inst) });
+            }
+            for i in 0..n {
+                if let Some(&t) = g.adj[i].first() {
+                    let to = Placeable::Instance(iptrs[t].clone().unwrap());
+                    iptrs[i].as_ref().unwrap().write().unwrap().loc = Place::Rel(RelativePlace { to, side: Side::Right, align: Align::Side(Side::Bottom), sep: Separation::default() });
+                }
+            }
+            lib.cells.add(parent);
+            let res = guard(|| {
+                tetris::placer::Placer::place(lib, Self::empty_stack())
+                    .map(|(l, _)| {
+                        let mut order: Vec<usize> = vec![];
+                        for c in l.cells.iter() {
+                            let c = c.read().unwrap();
+                            if c.name == "parent" {
+                                if let Some(lay) = &c.layout {
+                                    order = lay.instances.iter().map(|i| i.read().unwrap().inst_name[1..].parse::<usize>().unwrap_or(usize::MAX)).collect();
+                                }
+                            }
+                        }
+                        order
+                    })
+                    .map_err(|e| format!("{e:?}"))
+            });
+            self.judge_big(&key, "place-order-large", &g, &listing, res, cx);
+            for p in iptrs.iter().flatten() {
+                if let Ok(mut i) = p.write() {
+                    i.loc = (0, 0).into();
+                }
+            }
+        }
+        cx.bulk_states(1, 1);
+        cx.tag("large-graphs");
+    }
+
     fn listings5(tier: Tier) -> Vec<Vec<usize>> {
         if tier.is_thorough() {
             perms(5)
@@ -699,6 +976,11 @@ impl Driver for C17 {
             }
         }
         v.push("CHAIN".into());
+        for f in 0..BIG_FAMILIES.len() {
+            for n in BIG_SIZES {
+                v.push(format!("BIG:{f}:{n}"));
+            }
+        }
         v
     }
     fn run_unit(&self, unit: &str, cx: &mut Cx) {
@@ -707,6 +989,13 @@ impl Driver for C17 {
             return;
         }
         cx.enter(unit);
+        if let Some(rest) = unit.strip_prefix("BIG:") {
+            let q: Vec<usize> = rest.split(':').map(|x| x.parse().expect("MACHINERY: C17 BIG unit")).collect();
+            for l in 0..BIG_LISTINGS.len() {
+                self.run_big(q[0], q[1], l, cx);
+            }
+            return;
+        }
         if unit == "CHAIN" {
             // long chains: recursion depth proportional to the chain; must return (Ok) under the 8 MiB stack
             let n = 2000usize;
@@ -845,6 +1134,12 @@ impl Driver for C17 {
             cx.machinery(format!("C17 oracle self-check failed: {e}"));
             return;
         }
+        if let Some(rest) = key.strip_prefix("big:") {
+            let q: Vec<usize> = rest.split(':').filter_map(|x| x.parse().ok()).collect();
+            if q.len() == 3 {
+                return self.run_big(q[0], q[1], q[2], cx);
+            }
+        }
         if let Some((part, n, loops, bits, order)) = parse_gkey(key) {
             if part.len() == 1 && part.chars().all(|c| c.is_ascii_lowercase()) {
                 cx.enter(key);
@@ -875,7 +1170,7 @@ impl Driver for C17 {
         None
     }
     fn guards(&self, tier: Tier, stats: &Stats, _d: u64) -> Result<(), String> {
-        require_tags(stats, &["raw-abstract-only-sinks", "tetris-abstract-only-sinks", "raw-both-views", "tetris-both-views", "tetris-order-after-edit", "part-g", "part-g-n4", "part-g-n5", "part-r-n3", "part-d-n3", "part-t-n3", "part-p-n3", "place-order-unlisted-target", "chain"])?;
+        require_tags(stats, &["raw-abstract-only-sinks", "tetris-abstract-only-sinks", "raw-both-views", "tetris-both-views", "tetris-order-after-edit", "part-g", "part-g-n4", "part-g-n5", "part-r-n3", "part-d-n3", "part-t-n3", "part-p-n3", "place-order-unlisted-target", "chain", "large-graphs"])?;
         if tier.is_thorough() {
             require_tags(stats, &["part-r-n4", "part-d-n4", "part-t-n4", "part-p-n4"])?;
         }
